@@ -50,7 +50,9 @@ def gen(rng, tier):
                     "v": rng.randrange(6), "at": rng.choice([None, 0, 0, 0.05, 0.1]), "by": rng.randrange(3),
                     "wrap": rng.choice([None, None, None, "lib", "nocancel"]),
                     # an input that FAILED WITH a CancelledError instance is failed, not cancelled
-                    "cerr": rng.random() < 0.15, "falsy_exc": rng.random() < 0.12})
+                    "cerr": rng.random() < 0.15, "falsy_exc": rng.random() < 0.12,
+                    # the input reports running() before it finishes (work in progress): it must still be asked
+                    "pre_running": rng.random() < 0.15})
     spec = {"op": op, "ins": ins, "dup": (rng.randrange(n), rng.randrange(n)) if n >= 2 and rng.random() < 0.2 else None,
             "cancel_at": rng.choice([None, None, None, 0, 0.05]), "settle": 5.0,
             # the caller's own clean-up: a done-callback on the output that cancels one of the inputs
@@ -85,6 +87,11 @@ def run(spec, env):
             if inp["end"] == "cancel":
                 if Future.cancel(r):
                     r.set_running_or_notify_cancel()
+            elif r.running():
+                if inp["end"] == "exc":
+                    r.set_exception(results[i])
+                else:
+                    r.set_result(results[i])
             elif not r.set_running_or_notify_cancel():
                 env.rec("complete-skipped", i)
             elif inp["end"] == "exc":
@@ -96,6 +103,9 @@ def run(spec, env):
             env.rec("complete-raised", i, type(e).__name__, _scrub(str(e))[:60])
         env.rec("complete-ret", i, b)
 
+    for i, inp in enumerate(ins):
+        if inp.get("pre_running") and (inp["end"] == "never" or (inp["end"] != "cancel" and inp["at"] is not None)):
+            raw[i].set_running_or_notify_cancel()
     for i, inp in enumerate(ins):
         if inp["at"] is None and inp["end"] != "never":
             complete(i)        # already finished when the combinator is built
